@@ -1,12 +1,14 @@
 #!/bin/bash
-# usage: tools/all_seeds.sh [pattern]   — tries every seeded change (or those matching pattern) against the check of its property
-# and prints one line per seed: CAUGHT (a VIOLATION with a concrete replay), WEAK (VIOLATION … no-failing-input-found) or MISSED.
+# usage: [JOBS=n] tools/all_seeds.sh [pattern]   — tries every seeded change (or those matching pattern) against the check of its
+# property and prints one line per seed: CAUGHT (a VIOLATION with a concrete replay), WEAK (VIOLATION … no-failing-input-found) or MISSED.
 cd /verif
-for d in seeded/${1:-*}; do
-  name=$(basename $d); prop=${name:0:3}
+one() {
+  d=$1; name=$(basename $d); prop=${name:0:3}
   out=$(tools/try_seed.sh /verif/$d $prop 2>&1)
   if echo "$out" | grep -q "no-failing-input-found"; then r=WEAK
   elif echo "$out" | grep -q "VIOLATION property=$prop"; then r=CAUGHT
   else r=MISSED; fi
   echo "$name $r"
-done
+}
+export -f one
+ls -d seeded/${1:-*} | xargs -P ${JOBS:-1} -I{} bash -c 'one {}'
